@@ -635,6 +635,25 @@ class Executor:
             self.exec_block(h.body, st2, k_after)
 
         k_body = k_after.with_(exc=on_exc)
+        catches_rec = self.modname == 'engine' and any(
+            h.type is None or any(exc_is('RecursionError', nm) for nm in (
+                [h.type.id] if isinstance(h.type, ast.Name) else [e_.id for e_ in getattr(h.type, 'elts', []) if isinstance(e_, ast.Name)]))
+            for h in s.handlers)
+        if catches_rec and not st.flags.get('rec_edges'):
+            # a handler for RecursionError (or a broader class) is only meaningful because every call can raise it near the depth
+            # limit: inside such a try the calls get that exceptional edge
+            st = st.fork()
+            st.flags = dict(st.flags)
+            st.flags['rec_edges'] = id(s)
+            leave = lambda st2: (st2.flags.pop('rec_edges', None) if st2.flags.get('rec_edges') == id(s) else None)      # noqa: E731
+
+            def wrap(f):
+                def g(st2, *a):
+                    st2.flags = dict(st2.flags)
+                    leave(st2)
+                    return f(st2, *a)
+                return g
+            k_body = Konts(normal=wrap(k_body.normal), ret=wrap(k_body.ret), brk=wrap(k_body.brk), cont=wrap(k_body.cont), exc=wrap(k_body.exc))
         self.exec_block(s.body, st, k_body)
 
     # ------------------------------------------------------------------ loops
@@ -1528,6 +1547,12 @@ class Executor:
 
     # ------------------------------------------------------------------ calls
     def ev_Call(self, e, st):
+        outs = self._ev_Call(e, st)
+        if st.flags.get('rec_edges') and not (isinstance(e.func, ast.Name) and e.func.id in ('isinstance', 'len', 'range')):
+            outs = list(outs) + [(st.fork().tag('recursion-error-in-call'), Exc('RecursionError'))]
+        return outs
+
+    def _ev_Call(self, e, st):
         if e.keywords and not (self.theory and self.theory.accept_keywords(self, e)):
             raise OutOfSubset('keyword arguments', e)
         f = e.func
